@@ -226,6 +226,7 @@ structure Machine where
   st0 : Nat := 0               -- x87 st(0), 80 bits
   strs : List (Nat × List Byte) := []      -- readable C strings by address
   objs : List (Nat × Nat) := []            -- readable std::string objects: address ↦ _M_dataplus
+  regions : List (Nat × Nat) := []         -- mapped readable regions [start, end); [] = not specified
   deriving Repr, Inhabited
 
 def W64 : Nat := 2 ^ 64
@@ -260,9 +261,16 @@ def lookup {α : Type} (l : List (Nat × α)) (a : Nat) : Option α :=
   | [] => none
   | (k, v) :: r => if k = a then some v else lookup r a
 
-/-- classification of a `char *` -/
+/-- the specified verdict of check_mem_region: an address is readable iff its first byte lies inside a
+    mapped readable region [start, end) (when the regions are not given, every address with known
+    contents counts as mapped) -/
+def mapped (m : Machine) (p : Nat) : Bool :=
+  m.regions.isEmpty || m.regions.any (fun r => decide (r.1 ≤ p) && decide (p < r.2))
+
+/-- classification of a `char *`: memory is only looked at when the pointer is mapped -/
 def strVal (m : Machine) (p : Nat) : Val :=
   if p = 0 then .null else
+  if mapped m p = false then .bad p else
   match lookup m.strs p with
   | some s => .str s
   | none => .bad p
@@ -305,7 +313,7 @@ def fetch (fx : Fix) (m : Machine) (isRet : Bool) (val : Nat) (sp : Spec) : Val 
     if sp.fmt = .str then (strVal m (v % W64), v)
     else if sp.fmt = .stdstr then
       let base := v % W64
-      match lookup m.objs base with
+      match (if mapped m base then lookup m.objs base else none) with
       | some data => (strVal m data, v)
       | none => (strVal m base, v)      -- unreadable object: the object address itself is treated as the string
     else (.word v, v)
